@@ -87,20 +87,20 @@ mod verif_c05 {
 
     #[kani::proof]
     #[kani::unwind(@@UNWIND@@)]
-    fn c05_diff_exact_n2() {
+    fn c05_diff_exact_n2@@SFX@@() {
         diff_exact::<2>();
     }
 
     #[kani::proof]
     #[kani::unwind(@@UNWIND@@)]
-    fn c05_diff_exact_n1() {
+    fn c05_diff_exact_n1@@SFX@@() {
         diff_exact::<1>();
     }
 
     // a set never lacks anything of itself
     #[kani::proof]
     #[kani::unwind(@@UNWIND@@)]
-    fn c05_self_diff_empty_n2() {
+    fn c05_self_diff_empty_n2@@SFX@@() {
         let a = any_state::<2>();
         // entries/tombstones that are already below the own cut-off with nothing held are the
         // only thing a self-diff could list; reachable states hold what they list
